@@ -48,6 +48,15 @@ CLAIMS = {
         "service (successful or not); the inserted text contains no < > \" ' for every message and unescapes back to the message. Tied by "
         "histories of stop/pause/resume/deploy/rollout with hostile messages, built-in and custom 503 pages, body text compared byte for byte.",
    note=TB + "Modelled: html/template text-context escaper. The concurrent clause (requests arriving at any time) is carried by the proxy engine (C07)."),
+
+'C14': dict(engine='buffer', technique='Lean 4 proof (invariants by induction over write sequences; middleware over handler event traces) + differential correspondence run incl. an exhaustive small scope',
+   text="Theorems (all sizes, chunkings, limits): a body within the limit is accepted and delivered byte-exact for every chunking; memory "
+        "never holds more than buffer-memory bytes, a spill exists iff more was accepted and memory is then exactly full; overflow iff a "
+        "write would pass max-bytes (exactly max-bytes accepted, one more rejected); request middleware: over the limit => 413 and the next "
+        "handler is never called, else called with exactly the client's bytes; response middleware: for every handler trace and every ending "
+        "(return, overflow, hijack, event stream, panic) every spill created is removed, at most one is created. Tied by an exhaustive small "
+        "scope against the real Buffer plus middleware runs with a private TMPDIR.",
+   note=TB + "File-system effects are modelled as events (create/remove). The exact-status clause of response buffering for arbitrary traces is shown by evaluation on examples and the correspondence run rather than a general theorem."),
 }
 
 NA_REASON = {}
